@@ -77,7 +77,8 @@ ASSUMPTIONS = [
     "native target: clang-14 libFuzzer/ASan/UBSan runtime; long double reference sums",
     "permanent_laplace: entries with column multiplicity 0 are unspecified and not compared",
 ]
-FLOORS = {"mult_gt1": 0.10, "overload_32bit": 0.08}
+FLOORS = {"mult_gt1": 0.10, "overload_32bit": 0.08, "small_norm_matrix": 0.02,
+          "batch_last_nonzero_odd_total": 0.001}
 # Debug / sensitivity aid: C04_PARTS=perm,native restricts the run to the named parts (the
 # parts are independent: own Hypothesis seeds, own budgets), floors are then not applicable.
 _ONLY_PARTS = [p for p in os.environ.get("C04_PARTS", "").split(",") if p]
@@ -85,6 +86,13 @@ if _ONLY_PARTS:
     FLOORS = {}
 
 K_TOL = 64.0
+# magnitude family: every kernel's matrix is multiplied by one of these (where the
+# overload's exponent range allows); 64 u S scales with the matrix, so it stays meaningful
+MAGS = [1e-8, 1e-6, 3e-5, 1e-4, 1e-2, 1.0, 1.0, 1.0, 1e2, 1e4]
+# exponents e of the homogeneity relation f(2^e A) = 2^(e deg) f(A) (even, so that the loop
+# hafnian's diagonal scales by the exact factor 2^(e/2))
+HEXPS = [-26, -18, -8, 8]
+SMALL_NORM = 1e-4
 U64 = 2.0 ** -53
 U32 = 2.0 ** -24
 INT31 = 2 ** 31
@@ -373,6 +381,36 @@ def layout_or_value(bprefix, layout, v, contiguous_ok):
     return v
 
 
+def in_range(values, lo=1e-250, hi=1e250) -> bool:
+    return all(math.isfinite(v) and lo < v < hi for v in values)
+
+
+def fro(A) -> float:
+    A = np.asarray(A)
+    return float(np.sqrt(np.sum(np.abs(A.astype(np.complex128)) ** 2))) if A.size else 0.0
+
+
+def fit_exponent(e: int, degree: int, limit: int) -> int:
+    """Largest |e'| <= |e| (same sign, even) with |e'| * degree <= limit; 0 = skip."""
+    if degree <= 0:
+        return 0
+    m = min(abs(e), (limit // degree) // 2 * 2)
+    return int(math.copysign(m, e)) if m >= 2 else 0
+
+
+def check_homogeneity(ctx, bprefix, kernel, got_scaled, got_base, factor, tol_base, what):
+    """f(cA) = c^deg f(A), c a power of two (exact scaling of the inputs): both library
+    values carry at most the tolerance of their own evaluation."""
+    a, b = complex(got_scaled), complex(got_base) * factor
+    if not (math.isfinite(a.real) and math.isfinite(a.imag)):
+        raise Violation(f"{bprefix}:homogeneity", f"{what}: scaled call returned {a}")
+    if abs(a - b) > 2 * tol_base * factor:
+        raise Violation(f"{bprefix}:homogeneity",
+                        f"{what}: f(cA)={a!r} but c^deg f(A)={b!r}, |diff|={abs(a - b):.3e} > "
+                        f"2*tol={2 * tol_base * factor:.3e}")
+    ctx.count(f"homogeneity_checked:{kernel}")
+
+
 def call_guarded(bucket_prefix, fn, *args):
     """Call library code that must not raise on in-domain input."""
     try:
@@ -416,11 +454,25 @@ def prop_perm(case, ctx, region="main"):
         ctx.exclude(B_PERM_I64 if kernel == "permanent" else B_LAP_I64)
         return
     safe = not in_int32_region(rows)  # selects the bucket name only
+    mag = float(case.get("mag", 1.0))
     A0 = build_complex(case["fam"], nr, nc, case["seed"], case["scale"])
+    def smallest_sum(M):
+        """Smallest magnitude sum among the values the kernel returns."""
+        if kernel == "permanent":
+            return O.glynn_abs_sum(M, rows, cols)
+        sums = [O.glynn_abs_sum(M, rows, cols[:l] + [cols[l] - 1] + cols[l + 1:])
+                for l in range(nc) if cols[l] > 0]
+        return min(sums) if sums else 1.0
+
+    if mag != 1.0 and rows and cols:
+        if case["dtype"] == "i64" or not in_range([smallest_sum(A0 * mag)]) or \
+                abs(O.glynn_max_addend(A0 * mag, rows, cols)) > 250:
+            ctx.count("mag_out_of_range_reset")
+            mag = 1.0
+    A0 = A0 * mag
     dtype = case["dtype"]
     if dtype in ("c64", "f32") and rows and cols and (
-            O.glynn_max_addend(A0, rows, cols) > 30
-            or O.glynn_abs_sum(A0, rows, [max(c - 1, 0) for c in cols]) < 1e-25):
+            O.glynn_max_addend(A0, rows, cols) > 30 or smallest_sum(A0) < 1e-25):
         # float32 range: the addends would overflow / underflow; use the double overload
         ctx.count("c64_range_switched_to_c128")
         dtype = "c128" if dtype == "c64" else "f64"
@@ -450,6 +502,11 @@ def prop_perm(case, ctx, region="main"):
         classes.append("total_ge20")
     if not safe:
         classes.append("perm_int32_overflow_region")
+    classes.append(f"mag_{mag:g}")
+    hexp = fit_exponent(int(case.get("hexp", 0)), n if kernel == "permanent" else n,
+                        60 if dtype in ("c64", "f32") else 600) if dtype != "i64" else 0
+    if A.size and (fro(A) < SMALL_NORM or (hexp and fro(A) * 2.0 ** hexp < SMALL_NORM)):
+        classes.append("small_norm_matrix")
     bprefix = f"C04:{kernel}"
 
     if kernel == "permanent":
@@ -503,6 +560,20 @@ def prop_perm(case, ctx, region="main"):
                 if abs(g2 - r) <= K_TOL * u * s + 2 * u * abs(r):
                     raise Violation(f"{bprefix}:layout:{layout}", v.message)
             raise
+    # homogeneity: per(cA; r, c) = c^n per(A; r, c)  (Laplace entries: degree n as well,
+    # sum(cols) - 1 = n)
+    if hexp and n > 0 and nr and nc:
+        c = 2.0 ** hexp
+        deg = n
+        if in_range([s_ * c ** deg for s_ in Ss if s_ > 0], *((1e-25, 1e30) if u == U32 else ())) \
+                and abs(O.glynn_max_addend(A, rows, cols)) + abs(hexp) * 0.30103 * (deg + 1) < \
+                (30 if u == U32 else 250):
+            got2 = np.asarray(call_guarded(bprefix, fn, cast(A * c, dtype), r_in, c_in))
+            g2s = [complex(got2)] if kernel == "permanent" else [complex(got2[l]) for l in idxs]
+            for ga, gb, r, s_, l in zip(g2s, gots, refs, Ss, idxs):
+                check_homogeneity(ctx, bprefix, kernel, ga, gb, c ** deg,
+                                  K_TOL * u * s_ + 2 * u * abs(r),
+                                  f"{kernel}[{l}] rows={rows} cols={cols} dtype={dtype} c=2^{hexp}")
 
 
 def prop_perm_overflow(case, ctx):
@@ -606,6 +677,8 @@ def perm_cases(draw):
         "k": kernel, "rows": rows, "cols": cols, "fam": fam,
         "seed": draw(st.integers(0, 2 ** 32)),
         "scale": draw(st.sampled_from([0.25, 1.0, 1.0, 3.0])),
+        "mag": draw(st.sampled_from(MAGS)),
+        "hexp": draw(st.sampled_from(HEXPS)),
         "dtype": dtype,
         "layout": draw(st.sampled_from(["C", "C", "F", "strided", "offset", "neg", "ro"])),
         "mk": draw(st.sampled_from(["int64", "int64", "int32", "list", "strided", "uint64"])),
@@ -659,16 +732,46 @@ def prop_haf(case, ctx):
     dtype = case["dtype"]
     loop = kernel.startswith("lhaf")
     batch = kernel.endswith("batch")
-    A = cast(build_symmetric(case["fam"], d, case["seed"], case["scale"]), dtype)
-    diag0 = build_complex("gauss" if case["fam"] != "int" else "int", 1, d,
-                          case["seed"] + 7, case["scale"])[0] if d else np.zeros(0, complex)
-    diag = cast(diag0, dtype)
+    mag = float(case.get("mag", 1.0))
+    cutoff = int(case.get("cutoff", 0))
+    n = sum(occ)
+    A_unit = build_symmetric(case["fam"], d, case["seed"], case["scale"])
+    diag_unit = build_complex("gauss" if case["fam"] != "int" else "int", 1, d,
+                              case["seed"] + 7, case["scale"])[0] if d else np.zeros(0, complex)
+
+    def prepare(m):
+        # a pair weighs m, a loop sqrt(m): every term of the (loop) hafnian scales alike
+        A_ = cast(A_unit * m, dtype)
+        dg_ = cast(diag_unit * math.sqrt(m), dtype)
+        if batch:
+            occs_ = [occ[:-1] + [occ[-1] + k] for k in range(cutoff)]
+        else:
+            occs_ = [occ]
+        full = list(occ)
+        if batch:
+            full[-1] += cutoff + 1  # largest expanded matrix the batched algorithm works on
+        refs_, Ss_ = [], []
+        for o in occs_:
+            if not batch:
+                Ss_.append(O.powertrace_abs_sum(A_, dg_ if loop else None, o))
+            elif sum(o) % 2 and not loop:
+                Ss_.append(1.0)
+            else:
+                Ss_.append(2 * O.powertrace_abs_sum(A_, dg_ if loop else None, full,
+                                                    order=(sum(o) + 1) // 2, pad_unit=True))
+        return A_, dg_, occs_, refs_, Ss_
+
+    A, diag, occs, refs, Ss = prepare(mag)
+    if mag != 1.0 and not in_range(Ss):
+        ctx.count("mag_out_of_range_reset")
+        mag = 1.0
+        A, diag, occs, refs, Ss = prepare(mag)
+    for o in occs:
+        refs.append(O.loop_hafnian_ref(A, diag, o) if loop else O.hafnian_ref(A, o))
     layout = case["layout"]
     Ain = apply_layout(A, layout)
     din = apply_layout(diag, layout if layout in ("strided", "neg") else "C")
     occ_in = np.array(occ, dtype=np.int64)
-    cutoff = int(case.get("cutoff", 0))
-    n = sum(occ)
     classes = [kernel, "dtype_" + dtype, "layout_" + layout, "fam_" + case["fam"],
                "via_" + case["via"]]
     if layout not in ("C", "ro"):
@@ -687,28 +790,18 @@ def prop_haf(case, ctx):
         classes.append("total_ge20")
     if sum(1 for x in occ if x) >= 11:
         classes.append("haf_reduced_dim_gt10")
-
-    if batch:
-        occs = []
-        for k in range(cutoff):
-            o = list(occ)
-            o[-1] += k
-            occs.append(o)
-    else:
-        occs = [occ]
-    refs, Ss = [], []
-    full = list(occ)
-    if batch:
-        full[-1] += cutoff + 1  # largest expanded matrix the batched algorithm works on
-    for o in occs:
-        refs.append(O.loop_hafnian_ref(A, diag, o) if loop else O.hafnian_ref(A, o))
-        if not batch:
-            Ss.append(O.powertrace_abs_sum(A, diag if loop else None, o))
-        elif sum(o) % 2 and not loop:
-            Ss.append(1.0)
-        else:
-            Ss.append(2 * O.powertrace_abs_sum(A, diag if loop else None, full,
-                                               order=(sum(o) + 1) // 2, pad_unit=True))
+    classes.append(f"mag_{mag:g}")
+    if batch and occ[-1] != 0:
+        classes.append("batch_last_nonzero")
+        if n % 2:
+            classes.append("batch_last_nonzero_odd_total")
+    hexp = 0
+    if not batch and n >= 2 and (loop or n % 2 == 0):
+        hexp = fit_exponent(int(case.get("hexp", 0)), (n + 1) // 2, 600)
+        if hexp and not in_range([s_ * 2.0 ** (hexp * n / 2) for s_ in Ss]):
+            hexp = 0
+    if A.size and (fro(A) < SMALL_NORM or (hexp and fro(A) * 2.0 ** hexp < SMALL_NORM)):
+        classes.append("small_norm_matrix")
     nontrivial = (d >= 2 and max(o for oo in occs for o in oo) > 1
                   and any(abs(r) > 1e-6 * s for r, s in zip(refs, Ss)))
     ctx.case(case, nontrivial, classes)
@@ -739,7 +832,23 @@ def prop_haf(case, ctx):
         raise Violation(f"{bprefix}:result-shape", f"{got.shape}, expected ({len(occs)},)")
     for g, r, s, o in zip(got, refs, Ss, occs):
         check_value(ctx, f"{bprefix}:value:{dtype}", name, g, r, s, U64,
-                    f"{name} occ={o} dtype={dtype} layout={layout} fam={case['fam']}")
+                    f"{name} occ={o} dtype={dtype} layout={layout} fam={case['fam']} mag={mag:g}")
+    # homogeneity: haf(cA) = c^(n/2) haf(A), lhaf(cA, sqrt(c) d) = c^(n/2) lhaf(A, d)
+    if hexp:
+        c = 2.0 ** hexp
+        A2 = cast(A * c, dtype)
+        if kernel == "haf":
+            got2 = call_guarded(bprefix, hafnian_with_reduction, A2, occ_in)
+        else:
+            got2 = call_guarded(bprefix, loop_hafnian_with_reduction, A2,
+                                cast(diag * 2.0 ** (hexp // 2), dtype), occ_in)
+        factor = 2.0 ** (hexp * n / 2)
+        # the magnitude sum of the scaled evaluation is computed for the scaled input: for odd
+        # totals the implementation pads with a unit vertex, which does not scale
+        S2 = O.powertrace_abs_sum(A2, cast(diag * 2.0 ** (hexp // 2), dtype) if loop else None, occ)
+        tol_sum = (K_TOL * U64 * Ss[0] + 2 * U64 * abs(refs[0])) * factor + K_TOL * U64 * S2
+        check_homogeneity(ctx, bprefix, name, got2, got[0], factor, tol_sum / (2 * factor),
+                          f"{name} occ={occ} dtype={dtype} fam={case['fam']} mag={mag:g} c=2^{hexp}")
 
 
 def _warm_haf():
@@ -791,7 +900,8 @@ def occupation_pattern(draw, batch=False):
         d = draw(st.integers(1, 3))
         occ = _spread(draw, d, draw(st.integers(2, 40)), even=draw(st.booleans()))
     if batch:
-        occ = occ + [0]
+        # the batched kernels return the values for occ[-1], occ[-1] + 1, ...: any start
+        occ = occ + [draw(st.sampled_from([0, 0, 1, 2, 3]))]
     return occ
 
 
@@ -806,6 +916,8 @@ def haf_cases(draw):
                                      "real"])),
         "seed": draw(st.integers(0, 2 ** 32)),
         "scale": draw(st.sampled_from([0.25, 1.0, 1.0, 2.0])),
+        "mag": draw(st.sampled_from(MAGS)),
+        "hexp": draw(st.sampled_from(HEXPS)),
         "dtype": "c128",
         "layout": draw(st.sampled_from(["C", "C", "C", "F", "strided"])),
         "via": draw(st.sampled_from(["direct", "direct", "connector"])),
@@ -832,6 +944,8 @@ def prop_tor(case, ctx):
     d = int(case["d"])
     dtype = case["dtype"]
     A0, g0 = build_tor(case["fam"], d, case["seed"], case["strength"])
+    amag = float(case.get("amag", 1.0))   # 0 < amag <= 1 keeps 1 - amag A positive definite
+    A0 = A0 * amag
     A = cast(A0, dtype)
     gamma = cast(g0, dtype)
     layout = case["layout"]
@@ -848,7 +962,10 @@ def prop_tor(case, ctx):
     if not math.isfinite(S) or S > 1e12:
         ctx.count("tor_ill_conditioned_skipped")
         return
-    classes = [name, "dtype_" + dtype, "layout_" + layout, "fam_" + case["fam"], f"tor_d{d}"]
+    classes = [name, "dtype_" + dtype, "layout_" + layout, "fam_" + case["fam"], f"tor_d{d}",
+               f"mag_{amag:g}"]
+    if d and fro(A) < SMALL_NORM:
+        classes.append("small_norm_matrix")
     if layout not in ("C", "ro"):
         classes.append("layout_noncontig")
     if dtype == "f32":
@@ -889,6 +1006,7 @@ def tor_cases(draw):
                                      "physical", "physical"])),
         "seed": draw(st.integers(0, 2 ** 32)),
         "strength": draw(st.sampled_from([0.2, 0.5, 0.8, 1.0])),
+        "amag": draw(st.sampled_from([1e-8, 1e-6, 3e-5, 1e-4, 1e-2, 1.0, 1.0, 1.0, 1.0, 1.0])),
         "dtype": draw(st.sampled_from(["f64", "f64", "f32"])),
         "layout": draw(st.sampled_from(["C", "C", "F", "strided", "offset", "neg", "ro"])),
     }
@@ -903,7 +1021,18 @@ def prop_pf(case, ctx):
         return
     n = int(case["n"])
     dtype = case["dtype"]
-    A = cast(build_skew(case["fam"], n, case["seed"], case["scale"]), dtype)
+    mag = float(case.get("mag", 1.0))
+    A_unit = build_skew(case["fam"], n, case["seed"], case["scale"])
+    amax = float(np.max(np.abs(A_unit))) if n else 0.0
+    lo_hi = (1e-30, 1e30) if dtype == "f32" else (1e-250, 1e250)
+
+    def pf_in_range(factor):
+        return n < 2 or amax == 0 or in_range([(amax * factor) ** (n // 2), amax * factor], *lo_hi)
+
+    if mag != 1.0 and not pf_in_range(mag):
+        ctx.count("mag_out_of_range_reset")
+        mag = 1.0
+    A = cast(A_unit * mag, dtype)
     layout = case["layout"]
     u = unit_roundoff(dtype)
     bprefix = "C04:pfaffian"
@@ -917,6 +1046,12 @@ def prop_pf(case, ctx):
         classes.append("layout_noncontig")
     if dtype == "f32":
         classes.append("overload_32bit")
+    classes.append(f"mag_{mag:g}")
+    hexp = int(case.get("hexp", 0)) if n >= 2 and n % 2 == 0 else 0
+    if hexp and not pf_in_range(mag * 2.0 ** hexp):
+        hexp = 0
+    if n and (fro(A) < SMALL_NORM or (hexp and fro(A) * 2.0 ** hexp < SMALL_NORM)):
+        classes.append("small_norm_matrix")
     ctx.case(case, n >= 4 and n % 2 == 0 and abs(ref) > 1e-6 * S, classes)
     Ain = apply_layout(A, layout)
     fn = NC.pfaffian if case["via"] == "connector" else _pf_mod.pfaffian
@@ -941,6 +1076,13 @@ def prop_pf(case, ctx):
         if abs(g * g - det) > tol2:
             raise Violation(f"{bprefix}:pf-squared-is-det",
                             f"n={n}: Pf^2={g * g!r}, det={det!r}")
+    # homogeneity: Pf(cA) = c^(n/2) Pf(A)
+    if hexp:
+        c = 2.0 ** hexp
+        g2 = float(np.asarray(call_guarded(bprefix, fn, cast(A * c, dtype))))
+        check_homogeneity(ctx, bprefix, "pfaffian", g2, g, c ** (n // 2),
+                          K_TOL * u * S + 2 * u * abs(ref),
+                          f"pfaffian n={n} fam={case['fam']} dtype={dtype} mag={mag:g} c=2^{hexp}")
 
 
 @st.composite
@@ -951,6 +1093,8 @@ def pf_cases(draw):
                                      "pivot"])),
         "seed": draw(st.integers(0, 2 ** 32)),
         "scale": draw(st.sampled_from([0.25, 1.0, 3.0])),
+        "mag": draw(st.sampled_from(MAGS)),
+        "hexp": draw(st.sampled_from(HEXPS)),
         "dtype": draw(st.sampled_from(["f64", "f64", "f32"])),
         "layout": draw(st.sampled_from(["C", "C", "F", "strided", "offset", "neg", "ro"])),
         "via": draw(st.sampled_from(["direct", "connector"])),
